@@ -235,7 +235,7 @@ pub fn run_case(which: Which, c: &GCase, n: u64) -> Verdict {
     // model of the selection and the expected partition (used by C03 and for non-triviality)
     let tree = cd.tree();
     let root_paths: Vec<PathBuf> = roots.iter().map(|r| tree.join(r)).collect();
-    let selected = reference_walk(&root_paths, &c.opts.walk_opts(), &|_, _| false, &|_| true);
+    let selected = reference_walk(&root_paths, &c.opts.walk_opts(), &|_, _, _| false, &|_| true);
     let counting = Counting { rf: c.opts.rf_model(), match_links: c.opts.match_links, isolate_roots: None };
     let (expected, not_reported) = expected_groups(&selected, &*content, &counting);
 
